@@ -664,6 +664,9 @@ func isStdlib(path string) bool {
 // unsafe-heavy registries (protobuf, grpc, xds types, metrics exporters) that no
 // kernel reads: their globals stay zero.
 func noInitPkg(path string) bool {
+	if path == "golang.org/x/net/http2/hpack" {
+		return false
+	}
 	for _, p := range []string{"google.golang.org/protobuf", "github.com/golang/protobuf", "github.com/envoyproxy", "github.com/cncf",
 		"google.golang.org/grpc", "google.golang.org/genproto", "k8s.io/", "istio.io/", "github.com/gogo/protobuf", "go.opencensus.io",
 		"github.com/prometheus", "github.com/json-iterator", "github.com/modern-go", "net/http", "crypto/", "golang.org/x/net/http2", "github.com/valyala/fasthttp",
